@@ -3,12 +3,14 @@ package props
 import (
 	"encoding/json"
 	"fmt"
+	"go/ast"
 	"go/types"
 	"regexp"
 	"sort"
 	"strings"
 	"testing"
 
+	"golang.org/x/tools/go/packages"
 	"pgregory.net/rapid"
 
 	"verif/harness/engine"
@@ -122,17 +124,27 @@ type c05Verdict struct {
 	Class   string
 }
 
-func c05Expected(ld *engine.Loaded, implPath string, src string) []c05Verdict {
+func c05Expected(ld *engine.Loaded, implPath string, sources map[string]string, implDir string) []c05Verdict {
 	pkg := ld.Plain[implPath]
 	var out []c05Verdict
+	for _, sf := range pkg.Syntax {
+		fn := ld.Fset.Position(sf.Pos()).Filename
+		base := fn[strings.LastIndex(fn, "/")+1:]
+		out = append(out, c05ExpectedFile(pkg, sf, sources[implDir+"/"+base])...)
+	}
+	return out
+}
+
+func c05ExpectedFile(pkg *packages.Package, sf *ast.File, src string) []c05Verdict {
+	var out []c05Verdict
 	lines := strings.Split(src, "\n")
-	// imports of the (single) file
+	// imports of this file
 	type imp struct {
 		alias string
 		p     *types.Package
 	}
 	var imps []imp
-	for _, is := range pkg.Syntax[0].Imports {
+	for _, is := range sf.Imports {
 		path := strings.Trim(is.Path.Value, `"`)
 		var tp *types.Package
 		for _, ip := range pkg.Types.Imports() {
@@ -266,7 +278,7 @@ func c05Check(c c05Case) (string, []c05Verdict) {
 		return "analyzer panicked: " + res.Panics[0], nil
 	}
 	implDir := c.Pkgs[len(c.Pkgs)-1]
-	verdicts := c05Expected(ld, proggen.Module+"/"+implDir, c.Sources[implDir+"/impl.go"])
+	verdicts := c05Expected(ld, proggen.Module+"/"+implDir, c.Sources, implDir)
 	// actual: (type, code, subject) from messages
 	type got struct {
 		code    string
@@ -490,6 +502,8 @@ func c05Program(rt *rapid.T) (c05Case, map[string]int) {
 	// interface package
 	var ipb strings.Builder
 	fmt.Fprintf(&ipb, "package %s\n\nimport \"vf.test/m/aux\"\n\nvar _ aux.N\n\ntype Tok int\n\ntype NotIface struct{}\n\n", ipSpec.name)
+	// an interface sealed by an unexported method, and bases that provide it
+	ipb.WriteString("type Sealed interface {\n\tOpen()\n\tsealed()\n}\n\ntype Base struct{}\n\nfunc (Base) sealed() {}\n\ntype PBase struct{}\n\nfunc (*PBase) sealed() {}\n\n")
 	for _, it := range ifaces {
 		if it.Local {
 			continue
@@ -654,7 +668,45 @@ func c05Program(rt *rapid.T) (c05Case, map[string]int) {
 			ib.WriteString(d + "\n")
 		}
 	}
+	// types aiming at the sealed interface
+	for k, n := 0, rapid.IntRange(0, 2).Draw(rt, "nsealed"); k < n; k++ {
+		tname := fmt.Sprintf("S%d", k)
+		amp := ""
+		if g.chance("sealedAmp", 50) {
+			amp = "&"
+		}
+		emb := []string{q + "Base", "*" + q + "Base", q + "PBase", "*" + q + "PBase", ""}[g.pick("sealedEmbed", 5)]
+		fmt.Fprintf(&ib, "// @implements %s%sSealed\ntype %s struct {\n", amp, q, tname)
+		if emb != "" {
+			fmt.Fprintf(&ib, "\t%s\n", emb)
+		}
+		ib.WriteString("}\n\n")
+		if g.chance("sealedOpen", 70) {
+			r := tname
+			if g.chance("sealedOpenPtr", 50) {
+				r = "*" + tname
+			}
+			fmt.Fprintf(&ib, "func (s %s) Open() {}\n\n", r)
+		}
+		if emb == "" && g.chance("ownSealed", 60) {
+			// a method of the same name declared in THIS package does not satisfy the foreign unexported method
+			fmt.Fprintf(&ib, "func (s %s) sealed() {}\n\n", tname)
+			classes["own method named like a foreign unexported interface method"]++
+		}
+		classes["sealed interface via "+map[bool]string{true: "embedding " + strings.ReplaceAll(emb, q, "ip."), false: "nothing"}[emb != ""]]++
+	}
 	c := c05Case{Pkgs: []string{"aux", ipSpec.dir, "impl"}, Sources: map[string]string{"aux/aux.go": aux, ipSpec.dir + "/ip.go": ipb.String(), "impl/impl.go": ib.String()}}
+	// further files of the implementing package with different imports: a
+	// qualifier is bound per file
+	qn := strings.TrimSuffix(q, ".")
+	if g.chance("otherFiles", 50) {
+		if g.chance("earlierFileBindsNameElsewhere", 60) {
+			c.Sources["impl/a_first.go"] = fmt.Sprintf("package impl\n\nimport %s \"vf.test/m/aux\"\n\nvar _ %s.N\n\n// @implements %s.I0\ntype A0 struct{}\n", qn, qn, qn)
+			classes["earlier file binds the qualifier to another package"]++
+		}
+		c.Sources["impl/z_last.go"] = fmt.Sprintf("package impl\n\n// @implements %s.I0\ntype Z0 struct{}\n\n// @implements &%s.Sealed\ntype Z1 struct{}\n", qn, qn)
+		classes["file without the import uses the qualifier"]++
+	}
 	if ipSpec.name != ipSpec.dir[strings.LastIndex(ipSpec.dir, "/")+1:] {
 		classes["interface package name differs from its directory"]++
 	}
@@ -696,7 +748,7 @@ func TestC05(t *testing.T) {
 			return
 		}
 		if why != "" {
-			sz := len(c.Sources["impl/impl.go"]) + len(c.Sources[c.Pkgs[1]+"/ip.go"])
+			sz := len(c.Sources["impl/impl.go"]) + len(c.Sources[c.Pkgs[1]+"/ip.go"]) + len(c.Sources["impl/a_first.go"]) + len(c.Sources["impl/z_last.go"])
 			violation(rt, id, "c05", "c05", sz, c, "@implements verdict differs from Go's type checker: %s", why)
 		}
 		nt := false
